@@ -373,6 +373,8 @@ struct Rules {
     rev_range: bool,
     vec_for: bool,
     hoist_fn: bool,
+    exprs: Vec<(String, String)>,       // normalised token string of an expression -> replacement text (R17)
+    drop_cfg: Vec<String>,              // statements carrying #[cfg(feature = "X")] for a listed X are dropped (R18)
     after_method: Vec<(String, String)>, // method name -> ghost template ($idx = last index expression of the receiver, $recv = receiver)       // normalised callee path -> replacement of the whole call expression
     pub_super: bool,
     macro_call: Vec<(String, String)>,  // macro name -> fn name (args kept verbatim)
@@ -534,6 +536,30 @@ impl<'a, 'ast> Visit<'ast> for FnScan<'a> {
                 return;
             }
         }
+        // R18: a statement guarded by #[cfg(feature = "X")] for a feature that is off in the verified configuration is dropped
+        if !self.rules.drop_cfg.is_empty() {
+            let attrs: &[syn::Attribute] = match s {
+                syn::Stmt::Macro(m) => &m.attrs,
+                syn::Stmt::Local(l) => &l.attrs,
+                syn::Stmt::Expr(syn::Expr::Block(b), _) => &b.attrs,
+                syn::Stmt::Expr(syn::Expr::Macro(m), _) => &m.attrs,
+                syn::Stmt::Expr(syn::Expr::MethodCall(m), _) => &m.attrs,
+                syn::Stmt::Expr(syn::Expr::Call(m), _) => &m.attrs,
+                syn::Stmt::Expr(syn::Expr::If(m), _) => &m.attrs,
+                _ => &[],
+            };
+            for a in attrs.iter() {
+                if a.path().is_ident("cfg") {
+                    let mut t = String::new();
+                    norm_tokens(quote::ToTokens::to_token_stream(a), &mut t);
+                    let t = t.replace(' ', "");
+                    if self.rules.drop_cfg.iter().any(|f| t == format!("#[cfg(feature=\"{}\")]", f)) {
+                        self.push_edit(start, end, String::new(), "R18:drop-cfg-stmt", vec![]);
+                        return;
+                    }
+                }
+            }
+        }
         // R16: a nested `fn` item (it cannot capture anything) is extracted as a function of its own (@@fn Outer::inner) and
         // removed from the body of the enclosing function
         if self.rules.hoist_fn {
@@ -649,6 +675,8 @@ impl<'a, 'ast> Visit<'ast> for FnScan<'a> {
                         }
                         _ => String::new(),
                     };
+                    let args: Vec<String> = m.args.iter().map(|a| { let (x, y) = brange(a); self.src[x..y].to_string() }).collect();
+                    let tmpl = tmpl.replace("$args", &args.join(", ")).replace("$arg1", args.first().map(|s| s.as_str()).unwrap_or(""));
                     let text = format!("{} {}", &self.src[start..end], tmpl.replace("$idx", &idx).replace("$recv", &recv));
                     self.seq += 1;
                     // nested rewrites inside the statement are not combined with this rule: the statement is kept verbatim
@@ -667,6 +695,21 @@ impl<'a, 'ast> Visit<'ast> for FnScan<'a> {
         self.depth = self.block_counter;
         syn::visit::visit_block(self, b);
         self.depth = saved;
+    }
+
+    fn visit_expr(&mut self, e: &'ast syn::Expr) {
+        // R17: an expression whose normalised token string is listed is replaced as a whole (logged with original and new text)
+        if !self.rules.exprs.is_empty() {
+            let mut n = String::new();
+            norm_tokens(quote::ToTokens::to_token_stream(e), &mut n);
+            let n = n.replace(' ', "");
+            if let Some((_, to)) = self.rules.exprs.iter().find(|(p, _)| *p == n).cloned() {
+                let (s0, e0) = brange(e);
+                self.push_edit(s0, e0, to, "R17:expr-rewrite", vec![]);
+                return;
+            }
+        }
+        syn::visit::visit_expr(self, e);
     }
 
     fn visit_expr_macro(&mut self, m: &'ast syn::ExprMacro) {
@@ -720,6 +763,8 @@ impl<'a, 'ast> Visit<'ast> for FnScan<'a> {
                 _ => String::new(),
             };
             let call = self.src[s0..e0].to_string();
+            let args: Vec<String> = m.args.iter().map(|a| { let (x, y) = brange(a); self.src[x..y].to_string() }).collect();
+            let tmpl = tmpl.replace("$args", &args.join(", ")).replace("$arg1", args.first().map(|s| s.as_str()).unwrap_or(""));
             let text = format!("{{ let r__ = {}; {} r__ }}", call, tmpl.replace("$idx", &idx).replace("$recv", &recv));
             self.push_edit(s0, e0, text, "R4:after-method-expr", vec![call]);
             return;
@@ -1032,6 +1077,20 @@ fn main() {
                     "position" => rules.position = rest != "off",
                     "range-for" | "rev-range" => rules.rev_range = rest != "off",
                     "vec-for" => rules.vec_for = rest != "off",
+                    "drop-cfg-stmt" => rules.drop_cfg = rest.split_whitespace().map(|s| s.to_string()).collect(),
+                    "expr" => {
+                        // @@rule expr «tokens of the expression» => replacement
+                        let a0 = rest.find('«');
+                        let a1 = rest.rfind('»');
+                        if let (Some(a0), Some(a1)) = (a0, a1) {
+                            let pat = norm_str(&rest[a0 + '«'.len_utf8()..a1]).replace(' ', "");
+                            let to = rest[a1 + '»'.len_utf8()..].trim().trim_start_matches("=>").trim().to_string();
+                            rules.exprs.retain(|(n, _)| *n != pat);
+                            rules.exprs.push((pat, to));
+                        } else {
+                            die(2, &format!("OVERLAY-SYNTAX line {}: @@rule expr «…» => …", l));
+                        }
+                    }
                     "hoist-nested-fn" => rules.hoist_fn = rest != "off",
                     "pub-restricted" => rules.pub_super = rest != "off",
                     "drop-attr" => rules.drop_attr = rest.split_whitespace().map(|s| s.to_string()).collect(),
